@@ -13,6 +13,7 @@ import (
 	"time"
 
 	"google.golang.org/protobuf/proto"
+	"google.golang.org/protobuf/reflect/protoreflect"
 	"google.golang.org/protobuf/reflect/protoregistry"
 	"google.golang.org/protobuf/types/descriptorpb"
 	"verifharness/descgen"
@@ -54,12 +55,46 @@ func normMsg(s string) string {
 	s = regexp.MustCompile(`gen\.[a-z]\.v[0-9](\.sub)?\.[A-Za-z0-9_.]+`).ReplaceAllString(s, "<name>")
 	s = regexp.MustCompile(`gen\.[a-z]\.v[0-9](\.sub)?`).ReplaceAllString(s, "<pkg>")
 	s = regexp.MustCompile(`field [A-Za-z0-9_.]+: `).ReplaceAllString(s, "field <path>: ")
+	s = regexp.MustCompile(`field [A-Za-z0-9_]+ is already set`).ReplaceAllString(s, "field <name> is already set")
 	s = reNum.ReplaceAllString(s, "N")
 	if len(s) > 160 {
 		s = s[:160]
 	}
 	return s
 }
+
+// splitCollision reports whether two different messages / enums / real oneofs of the
+// linked set get the same schema name (package, names joined with "_").
+func splitCollision(files *protoregistry.Files) bool {
+	seen := map[string]string{}
+	hit := false
+	add := func(key, full string) {
+		if prev, ok := seen[key]; ok && prev != full {
+			hit = true
+		}
+		seen[key] = full
+	}
+	files.RangeFiles(func(fd protoreflect.FileDescriptor) bool {
+		if strings.HasPrefix(string(fd.Package()), "google.") || strings.HasPrefix(string(fd.Package()), "buf.") {
+			return true
+		}
+		for _, m := range descgen.AllMessages(fd) {
+			add(joinSplit(m), string(m.FullName()))
+			for i := 0; i < m.Oneofs().Len(); i++ {
+				if o := m.Oneofs().Get(i); !o.IsSynthetic() {
+					add(joinSplit(o), string(o.FullName()))
+				}
+			}
+		}
+		for _, e := range descgen.AllEnums(fd) {
+			add(joinSplit(e), string(e.FullName()))
+		}
+		return true
+	})
+	return hit
+}
+
+var reConfusion = regexp.MustCompile(`interface conversion|refers to \*|fresh panic|fresh err, shared ok|fresh ok, shared`)
 
 type c18case struct {
 	id    int
@@ -140,6 +175,10 @@ func runC18(cfg *vh.Config) error {
 		input := map[string]any{"files": c.c.GenPaths(), "seed": cfg.Seed, "case": c.id, "generated_files_base64": genOnlyB64(c.c)}
 		fresh := map[string]string{} // msg -> fresh-cache class
 		freshEnc := map[string]string{}
+		collides := splitCollision(c.files)
+		if collides {
+			res.Count("case-with-split-name-collision")
+		}
 		for _, o := range os {
 			evals++
 			kind, arg, _ := strings.Cut(o.Step, "|")
@@ -150,6 +189,19 @@ func runC18(cfg *vh.Config) error {
 					in[k] = v
 				}
 				in["step"] = o.Step
+				if collides && reConfusion.MatchString(sig+" "+got) {
+					// one signature per stage for the name-collision class
+					stage := "schema refers to a schema of another kind"
+					switch {
+					case strings.Contains(sig, "codec"):
+						stage = "codec panics on the type assertion of Ref.To"
+					case strings.Contains(sig, "-> panic"):
+						stage = "reader panics on ref.To.(*EnumSchema)"
+					case strings.Contains(sig, "earlier failed builds"):
+						stage = "answer differs between a fresh and a shared cache"
+					}
+					sig = "C18 two descriptors with the same split name (package, names joined by _) -> " + stage
+				}
 				res.Fail(vh.Failure{Case: c.id, Stream: kind, Sig: sig, Clause: clause, Input: in, Got: got})
 			}
 			bad := o.Class == "panic" || o.Class == "fatal" || o.Class == "timeout"
@@ -168,7 +220,7 @@ func runC18(cfg *vh.Config) error {
 				if o.Class == "ok" {
 					set = o.Term
 				}
-				terms = append(terms, fmt.Sprintf("OSet %s %d %s", descgen.Str(arg), classN[o.Class], set))
+				terms = append(terms, fmt.Sprintf("OSet %s %d %v %s", descgen.Str(arg), classN[o.Class], len(o.Viol) == 0, set))
 			case "msg":
 				fresh[arg] = o.Class
 				if bad {
@@ -182,7 +234,7 @@ func runC18(cfg *vh.Config) error {
 				if o.Class == "ok" {
 					root = "(Some (" + o.Term + "))"
 				}
-				terms = append(terms, fmt.Sprintf("OMsg %s %d %s", descgen.Str(arg), classN[o.Class], root))
+				terms = append(terms, fmt.Sprintf("OMsg %s %d %v %s", descgen.Str(arg), classN[o.Class], len(o.Viol) == 0, root))
 			case "client":
 				if bad {
 					fail(fmt.Sprintf("C18 ClientProperties of a reflected object -> %s in %s: %s", o.Class, o.Site, normMsg(o.Msg)), "never panics or recurses forever, including on self- and mutually-recursive messages", o.Msg)
